@@ -59,3 +59,11 @@ CLAIMS["C32"] = dict(level="exploration",
     technique="exhaustive enumeration of every dicttls table entry (value->name->value) and of the hello corpus rendered to JSON, comparing JSON import with raw import",
     text="Every entry of every value-indexed dictionary with a name-indexed sibling (discovered from the sources at check time) must resolve back to itself; every corpus ClientHello the JSON format can describe is rendered with the value-indexed tables, imported, applied and built, and must equal (normalised) the hello built from the raw-bytes import of the same bytes.",
     note="Harness JSON renderer written from the documented format; non-representable hellos (ECH GREASE, cookie, QUIC params, unnamed code points) are counted, not judged.")
+CLAIMS["C06"] = dict(level="exploration",
+    technique="exhaustive enumeration of source hellos (all IDs, seeds, generated custom specs, resumption shapes) x all 8 Fingerprinter flag sets through fingerprint -> apply -> build, compared in a normal form, plus a second round for idempotence",
+    text="Every source hello is fingerprinted under every flag combination, re-applied with a different same-length server name and rebuilt; the normalised hello (GREASE and per-connection material masked, sizes kept) and the total length must equal the source, and fingerprinting the regenerated hello must reproduce it again.",
+    note="Allowed differences: error without AllowBluntMimicry, padding appended under AlwaysAddPadding, PSK dropped under RealPSKResumption; sources with an empty-but-present extensions block are excluded (not representable).")
+CLAIMS["C03"] = dict(level="exploration",
+    technique="exhaustive enumeration of predefined parrots x SNI shapes x connections against an independent reference encoder of the parrot's ClientHelloSpec",
+    text="For every predefined parrot the wire hello is compared with a reference encoding (written from the RFCs) of a second UTLSIdToSpec call: legacy version, suites, compression, extension sequence (multiset and fixed positions for shuffling parrots) and every extension body, per-connection material masked.",
+    note="Shuffle permutations are observed over enumerated connections rather than enumerated decision by decision; padding presence is C05's subject.")
